@@ -22,6 +22,7 @@ import (
 //                          Arrow-derived sizes (estimate, exact total)  -> "ok <off> <len> <hdr>" | "fail <hdr>"
 //   fill <n> <size>        n times allocateLocked(size)  -> "filled <successes> <hdr>"
 //   reset                  Reset()                      -> "ok <hdr>"
+//   attachsz <delta>       attach with size+delta: must be refused unless delta = 0  -> "attach-ok=<bool>"
 //   attach                 second attachment of the same OS object reads the table -> "table a:b,c:d"
 // <hdr> is the hex of the live header prefix (24 fixed bytes + 16 per counted entry).
 
@@ -103,10 +104,27 @@ func c34Gen(g *Gen) {
 				lines = append(lines, "reset")
 				tab = nil
 			default:
-				lines = append(lines, "attach")
+				if r.Chance(30) {
+					lines = append(lines, fmt.Sprintf("attachsz %d", Pick(r, []int{0, 1, -1, 4096, -4096, 65536, 8})))
+				} else {
+					lines = append(lines, "attach")
+				}
 			}
 		}
 		lines = append(lines, "attach")
+		g.Case(lines...)
+	}
+	// write-batch refusals must not be sticky: fill, refused allocw, then reset / free, then the same allocw again
+	for i := 0; i < g.N(12, 120); i++ {
+		rows := Pick(r, []int{200, 1000, 5000})
+		dataSize := Pick(r, []int{8192, 12000, 20000, 65536})
+		lines := []string{fmt.Sprintf("new %d", dataSize), fmt.Sprintf("alloc %d", dataSize-r.Range(0, 64)), fmt.Sprintf("allocw %d", rows)}
+		if r.Bool() {
+			lines = append(lines, "reset")
+		} else {
+			lines = append(lines, "free 65536")
+		}
+		lines = append(lines, fmt.Sprintf("allocw %d", rows), fmt.Sprintf("allocw %d", rows), "attach")
 		g.Case(lines...)
 	}
 	// table-capacity boundary: fill to just below ShmMaxAllocs, then cross it, free, re-cross
@@ -289,12 +307,45 @@ func c34Exec(c *Case) {
 			} else {
 				c.Stat("allocw-fail")
 				c.Out(ml, "fail "+hdr())
+				// a write-batch allocation may be refused only when the estimate or the exact size has no gap
+				fits := func(n int) bool {
+					if n <= 0 || len(before) >= vgirpc.ShmMaxAllocs {
+						return false
+					}
+					prev := uint64(vgirpc.ShmHeaderSize)
+					for _, e := range before {
+						if e[0] >= prev && e[0]-prev >= uint64(n) {
+							return true
+						}
+						prev = e[0] + e[1]
+					}
+					return uint64(seg.Size()) >= prev && uint64(seg.Size())-prev >= uint64(n)
+				}
+				if fits(est) && fits(tot) {
+					c.Oracle("allocw-refused-though-fits", fmt.Sprintf("%q on table %v refused though estimate %d and size %d both fit", l, before, est, tot))
+				}
 			}
 			c34Oracle(c, seg, l)
 		case "reset":
 			seg.Reset()
 			c.Stat("reset")
 			c.Out(l, "ok "+hdr())
+		case "attachsz":
+			// a peer attaching with a size that differs from the creator's must be refused by
+			// header validation (data_size is part of the documented layout)
+			delta, _ := strconv.Atoi(f[1])
+			other, err := vgirpc.ShmAttach(seg.Name(), seg.Size()+delta, false)
+			if err == nil {
+				other.Close()
+			}
+			c.Stat("attachsz")
+			if delta != 0 && err == nil {
+				c.Oracle("attach-with-wrong-size-accepted", fmt.Sprintf("%q: attach with size %d accepted for a segment of size %d", l, seg.Size()+delta, seg.Size()))
+			}
+			if delta == 0 && err != nil {
+				c.Oracle("attach-with-right-size-refused", err.Error())
+			}
+			c.Out(l, fmt.Sprintf("attach-ok=%v", err == nil))
 		case "attach":
 			other, err := vgirpc.ShmAttach(seg.Name(), seg.Size(), false)
 			if err != nil {
